@@ -4,13 +4,20 @@ undo the change. Usage: tools/seed_matrix.py [--tier quick|thorough] [ids...]"""
 import glob, json, os, re, subprocess, sys, time
 V = '/verif'
 tier = 'quick'
-args = [a for a in sys.argv[1:] if a != '--resume']
+args = [a for a in sys.argv[1:] if a not in ('--resume', '--alt')]
+ALT = '/tmp/verif_alt' if '--alt' in sys.argv else None      # run against a scratch worktree instead of /repo
+REPO = '/repo'
+if ALT:
+    REPO = ALT + '/repo'
+    subprocess.run(['git', '-C', '/repo', 'worktree', 'remove', '--force', REPO], capture_output=True)
+    os.makedirs(ALT, exist_ok=True)
+    subprocess.check_call(['git', '-C', '/repo', 'worktree', 'add', '-q', '--detach', REPO, 'HEAD'])
 if args and args[0] == '--tier':
     tier = args[1]; args = args[2:]
 dirs = sorted(glob.glob(V + '/seeded/*/'))
 if args:
     dirs = [d for d in dirs if os.path.basename(d.rstrip('/')) in args]
-assert subprocess.run(['git', '-C', '/repo', 'status', '--porcelain'], capture_output=True, text=True).stdout.strip() == '', '/repo not clean'
+assert subprocess.run(['git', '-C', REPO, 'status', '--porcelain'], capture_output=True, text=True).stdout.strip() == '', '/repo not clean'
 for d in dirs:
     name = os.path.basename(d.rstrip('/'))
     prop = name.split('-')[0]
@@ -19,22 +26,22 @@ for d in dirs:
     if '--resume' in sys.argv and isinstance(meta.get('detected_by'), dict) and tier in meta['detected_by']:
         continue
     patch = os.path.join(d, 'patch.diff')
-    if subprocess.run(['git', '-C', '/repo', 'apply', '--check', patch], capture_output=True).returncode != 0:
+    if subprocess.run(['git', '-C', REPO, 'apply', '--check', patch], capture_output=True).returncode != 0:
         meta['applies_to_current_tree'] = False
         json.dump(meta, open(mp, 'w'), indent=1)
         print(name, 'does not apply (superseded by a fix)')
         continue
-    subprocess.check_call(['git', '-C', '/repo', 'apply', patch])
+    subprocess.check_call(['git', '-C', REPO, 'apply', patch])
     t0 = time.time()
     try:
         p = subprocess.run([V + '/bin/check', prop, '--tier', tier], capture_output=True, text=True, timeout=3600,
-                           env=dict(os.environ, VERIF_EVIDENCE_DIR='/tmp/matrix_evidence'))
+                           env=dict(os.environ, VERIF_EVIDENCE_DIR='/tmp/matrix_evidence', **({'VERIF_ALT': ALT, 'VERIF_REPO': REPO} if ALT else {})))
         out = p.stdout + p.stderr
         rc = p.returncode
     except subprocess.TimeoutExpired:
         out, rc = '', 2
     finally:
-        subprocess.check_call(['git', '-C', '/repo', 'checkout', '--', '.'])
+        subprocess.check_call(['git', '-C', REPO, 'checkout', '--', '.'])
     viol = re.findall(r'VIOLATION property=\S+ replay=(\S+)', out)
     what = sorted(set(re.findall(r'violated: (\S+)', out)))
     meta['applies_to_current_tree'] = True
@@ -43,4 +50,6 @@ for d in dirs:
     meta['detected_by'] = det
     json.dump(meta, open(mp, 'w'), indent=1)
     print(name, 'rc=%d' % rc, len(viol), 'violation(s)', what[:4], '%ds' % (time.time() - t0), flush=True)
-subprocess.run('rm -rf %s/replays/C*' % V, shell=True)
+subprocess.run('rm -rf %s/replays/C*' % (ALT or V), shell=True)
+if ALT:
+    subprocess.run(['git', '-C', '/repo', 'worktree', 'remove', '--force', REPO])
